@@ -71,8 +71,9 @@ def run(tier):
     v.cov['evaluations'] += res1.checked
     v.cov['samples'].append(dict(kind='E1 case from TLC (RegpEmitMC.tla): emit call | rc seq wire -7 peer view', events=cases[3000:3002]))
     v.notes['e0_e1'] = dict(model='RegpEmitMC.tla', cases=len(cases))
-    rnd = random.Random(vf.seed())
-    ss = list(scripts(rnd, quick))
+    ss = []
+    for rnd in vf.rounds(tier, 3):
+        ss += list(scripts(rnd, quick))
     vf.trace_flow(v, 'RegpTrace.tla', 'RegpTrace.cfg', 'regp', ss, 'emit')
     v.cov['distinct_nontrivial'] += len(set(l for s in ss for l in s))
     v.cov['rule'] = ('all emit entry points x 2 transports x 2 word sizes x boundary addresses x sizes x payloads with SLIP control octets x sequence numbers; '
